@@ -13,6 +13,7 @@
 EXTENDS Integers, Sequences, FiniteSets, TLC
 
 CONSTANTS MaxSteps, Codes,
+          CopyKinds, \* the "cp" kinds in the call alphabet
           Variant    \* "asWritten" | "stickyHijack" (design mutation: a `hijacked` flag that Reset forgets)
                      \* | "hijackByAssertion" (Hijack does w.rw.(http.Hijacker) instead of using a
                      \*   ResponseController, so it does not look behind an Unwrap-only wrapper)
@@ -26,11 +27,13 @@ VARIABLES code,    \* Go: w.code
           wrote,   \* whether Write or WriteHeader was called since the last Reset / creation
           implicit,\* whether SetImplicitSuccess was called since then
           fresh,   \* the last call was Reset (or nothing was called yet)
+          want,    \* ghost: what each underlying writer must have received - everything that was written
+                   \* through the wrapper, byte for byte (UnderExact)
           taken,   \* a Hijack succeeded since the last Reset: the connection is the handler's, the
                    \* writer must not be used any more (net/http), so no further call is modelled
           steps
 
-vars == <<code, base, hijacked, under, rets, passed, wrote, implicit, fresh, taken, steps>>
+vars == <<code, base, hijacked, under, want, rets, passed, wrote, implicit, fresh, taken, steps>>
 
 (* Underlying writer 1 is an http.Hijacker and http.Flusher (its Hijack     *)
 (* succeeds or fails as scripted), writer 2 is a bare http.ResponseWriter,   *)
@@ -40,6 +43,7 @@ vars == <<code, base, hijacked, under, rets, passed, wrote, implicit, fresh, tak
 (* Flush reach the inner writer of 3.                                        *)
 Init == /\ code = 0 /\ base = 1 /\ hijacked = FALSE
         /\ under = <<(<<>>), (<<>>), (<<>>)>>
+        /\ want = <<(<<>>), (<<>>), (<<>>)>>
         /\ rets = <<>>
         /\ passed = <<>> /\ wrote = FALSE /\ implicit = FALSE /\ fresh = TRUE /\ taken = FALSE
         /\ steps = 0
@@ -51,6 +55,7 @@ WriteHeader(c) ==
     /\ ~implicit /\ ~taken
     /\ code' = IF Sticky /\ hijacked THEN code ELSE c
     /\ under' = Forward([op |-> "wh", c |-> c])
+    /\ want' = [want EXCEPT ![base] = Append(@, [op |-> "wh", c |-> c])]
     /\ passed' = Append(passed, c)
     /\ wrote' = TRUE /\ fresh' = FALSE
     /\ UNCHANGED <<base, hijacked, rets, implicit, taken>>
@@ -58,6 +63,23 @@ WriteHeader(c) ==
 Write ==
     /\ ~implicit /\ ~taken
     /\ under' = Forward([op |-> "w", c |-> 0])
+    /\ want' = [want EXCEPT ![base] = Append(@, [op |-> "w", c |-> 0])]
+    /\ wrote' = TRUE /\ fresh' = FALSE
+    /\ UNCHANGED <<code, base, hijacked, rets, passed, implicit, taken>>
+
+(* A std-lib helper writes a byte string through the wrapper (HttpOps: "cp"  *)
+(* kinds; here 2 = io.Copy from a source that returns its last data with     *)
+(* EOF, 4 = io.Copy from a source with WriteTo, 5 = a source that fails      *)
+(* after a prefix, 6 = io.WriteString).  As written the wrapper offers only  *)
+(* Write, so whatever the helper probes for, the bytes go through Write.     *)
+(* (Variant "readFromDropsEOFChunk": a ReadFrom that delegates to the        *)
+(* underlying writer's - only writer 1 has one - or copies with a loop that  *)
+(* drops a chunk delivered together with EOF.)                               *)
+Copy(k) ==
+    /\ ~implicit /\ ~taken
+    /\ LET lost == Variant = "readFromDropsEOFChunk" /\ k = 2 /\ base # 1 IN
+         under' = Forward([op |-> "cp", c |-> IF lost THEN 0 - k ELSE k])
+    /\ want' = [want EXCEPT ![base] = Append(@, [op |-> "cp", c |-> k])]
     /\ wrote' = TRUE /\ fresh' = FALSE
     /\ UNCHANGED <<code, base, hijacked, rets, passed, implicit, taken>>
 
@@ -67,12 +89,12 @@ Hijack(mode) ==
     /\ ~implicit /\ ~taken
     /\ taken' = (base # 2 /\ ~(base = 3 /\ Variant = "hijackByAssertion") /\ mode = 1)
     /\ IF base = 2 \/ (base = 3 /\ Variant = "hijackByAssertion")
-         THEN /\ rets' = Append(rets, [b |-> base, r |-> "unsupported"]) /\ UNCHANGED <<under, hijacked>>
+         THEN /\ rets' = Append(rets, [b |-> base, r |-> "unsupported"]) /\ UNCHANGED <<want, under, hijacked>>
          ELSE /\ under' = [under EXCEPT ![base] = Append(@, [op |-> "hj", c |-> mode])]
               /\ rets' = Append(rets, [b |-> base, r |-> IF mode = 1 THEN "ok" ELSE "fail"])
               /\ hijacked' = (hijacked \/ (Sticky /\ mode = 1))
     /\ fresh' = FALSE
-    /\ UNCHANGED <<code, base, passed, wrote, implicit>>
+    /\ UNCHANGED <<want, code, base, passed, wrote, implicit>>
 
 (* http.NewResponseController(w).Flush(): through Unwrap to the underlying  *)
 (* writer, if that is an http.Flusher                                        *)
@@ -80,17 +102,23 @@ Flush ==
     /\ ~implicit /\ ~taken
     /\ under' = IF base # 2 THEN [under EXCEPT ![base] = Append(@, [op |-> "fl", c |-> 0])] ELSE under
     /\ fresh' = FALSE
-    /\ UNCHANGED <<code, base, hijacked, rets, passed, wrote, implicit, taken>>
+    /\ UNCHANGED <<want, code, base, hijacked, rets, passed, wrote, implicit, taken>>
 
 SetImplicit ==
     /\ code' = IF code = 0 THEN 200 ELSE code
     /\ implicit' = TRUE /\ fresh' = FALSE
-    /\ UNCHANGED <<base, hijacked, under, rets, passed, wrote, taken>>
+    /\ UNCHANGED <<want, base, hijacked, under, rets, passed, wrote, taken>>
 
 Reset(b) ==
     /\ base' = b /\ code' = 0
     /\ passed' = <<>> /\ wrote' = FALSE /\ implicit' = FALSE /\ fresh' = TRUE /\ taken' = FALSE
-    /\ UNCHANGED <<hijacked, under, rets>>           \* as written there is nothing else to clear
+    /\ UNCHANGED <<want, hijacked, under, rets>>           \* as written there is nothing else to clear
+
+(* Whatever is written through the wrapper reaches the underlying writer    *)
+(* exactly (Hijack and Flush are not "written": they are in `rets` and       *)
+(* `under` only).                                                            *)
+Written(s) == SelectSeq(s, LAMBDA e : e.op \in {"w", "wh", "cp"})
+UnderExact == \A b \in 1..3 : Written(under[b]) = want[b]
 
 (* Fresh after Reset: in every field the wrapper is what                     *)
 (* NewCodeRecorderResponseWriter(base) returns.                              *)
@@ -122,10 +150,12 @@ Act(o) == \/ o.op = "wh" /\ WriteHeader(o.c)
           \/ o.op = "reset" /\ Reset(o.c)
           \/ o.op = "hj" /\ Hijack(o.c)
           \/ o.op = "fl" /\ Flush
+          \/ o.op = "cp" /\ Copy(o.c)
 
 Alphabet == {[op |-> "wh", c |-> c] : c \in Codes} \cup {[op |-> "w", c |-> 0], [op |-> "impl", c |-> 0]}
             \cup {[op |-> "reset", c |-> b] : b \in {1, 2, 3}}
             \cup {[op |-> "hj", c |-> m] : m \in {1, 2}} \cup {[op |-> "fl", c |-> 0]}
+            \cup {[op |-> "cp", c |-> k] : k \in CopyKinds}
 
 Next == /\ steps < MaxSteps
         /\ steps' = steps + 1
